@@ -79,9 +79,64 @@ type Sched struct {
 	// MapOrder, if set, chooses the permutation applied to sorted map keys (nil result = keep sorted).
 	MapOrder func(n int, site string) []int
 
+	// PoolChoice, if set, owns every sync.Pool behind a pool seam: for Get it is called with n = 1 + the
+	// number of objects the pool currently holds and returns 0 for "a fresh object" or i for "pooled
+	// object i-1 (oldest first)"; for Put it is called with n = 0 and returns 0 to keep the object or
+	// anything else to lose it (as the garbage collector may).
+	PoolChoice func(n int, site string) int
+	pools      map[*sync.Pool][]any
+	PoolFresh  int64
+	PoolReused int64
+	PoolLost   int64
+
 	Yields    int64
 	Wakes     int64
 	LockWaits int64
+}
+
+// PoolGet is the pool seam for p.Get().
+func PoolGet(p *sync.Pool, site string) any {
+	s := active.Load()
+	if s == nil || s.PoolChoice == nil {
+		return p.Get()
+	}
+	s.mu.Lock()
+	held := s.pools[p]
+	s.mu.Unlock()
+	c := s.PoolChoice(len(held)+1, site)
+	if c <= 0 || c > len(held) {
+		s.PoolFresh++
+		if p.New == nil {
+			return nil
+		}
+		return p.New()
+	}
+	s.mu.Lock()
+	held = s.pools[p]
+	x := held[c-1]
+	s.pools[p] = append(append([]any(nil), held[:c-1]...), held[c:]...)
+	s.mu.Unlock()
+	s.PoolReused++
+	return x
+}
+
+// PoolPut is the pool seam for p.Put(x).
+func PoolPut(p *sync.Pool, x any, site string) {
+	s := active.Load()
+	if s == nil || s.PoolChoice == nil {
+		p.Put(x)
+		return
+	}
+	if s.PoolChoice(0, site) != 0 {
+		s.PoolLost++
+		return
+	}
+	s.mu.Lock()
+	if s.pools == nil {
+		s.pools = map[*sync.Pool][]any{}
+	}
+	s.pools[p] = append(s.pools[p], x)
+	s.mu.Unlock()
 }
 
 var active atomic.Pointer[Sched]
